@@ -208,6 +208,11 @@ func (s *Module) Init(height uint32) error {
 	}
 	s.currentLocal.Store(r.Root)
 	s.localHeight.Store(r.Index)
+	if s.srInHead {
+		// Every local root is a validated one then, see UpdateCurrentLocal.
+		s.validatedHeight.Store(r.Index)
+		updateStateHeightMetric(r.Index)
+	}
 	s.mpt = mpt.NewTrie(mpt.NewHashNode(r.Root), s.mode, s.Store)
 	return nil
 }
